@@ -24,6 +24,11 @@ PreDirLink == (<<"a">> :> [t |-> "link", to |-> T(FALSE, <<"..", "sdir">>)])
 PreDir == (<<"a">> :> [t |-> "dir"])
 QPre == { NoPre, PreLink, PreDirLink, PreDir }
 SPre == { NoPre }
+NoMatch == { <<>> }
+(* --path: the looked-up names meet pre-existing links and directories and entries whose block is missing *)
+PMatch == { <<"a">>, <<"a", "b">>, <<"b">>, <<"a", "f">> }
+PEntries == { F(<<"a">>), F(<<"b">>), M(<<"b">>), M(<<"a">>), L(<<"a">>, T(FALSE, <<"..", "sdir">>)), L(<<"b">>, T(FALSE, <<"..", "sent">>)) }
+PDirNames == { <<"a">>, <<"b">> }
 (* file roots: the fixed name "unknown" meets links, files and directories of that name *)
 UEntries == { F(<<"unknown">>), F(<<"a">>) } \cup { L(<<"unknown">>, t) : t \in Targets }
 UDirNames == { <<"unknown">>, <<"a">> }
